@@ -200,8 +200,19 @@ PROPS = {
               {"name": "cl", "kind": "app", "n": {"quick": 1500, "thorough": 20000}, "shards": {"quick": 4, "thorough": 16}, "env": NO_EXPORT_IMPORT}],
   "rule": "cl: histories on one concentrated pool (scaling factor one or 10^27, chosen per history) through the real keeper: create incl. twin and k-fold positions, add, "
           "partial/full withdraw, swaps of both kinds/directions from 1 unit to draining, spread-reward collects by owner and non-owner, transfers, directed sequences "
-          "accrue -> partial withdraw / add / transfer -> (swap) -> claim on the same position, incentive records (authorised uptimes 1ns..1d, own denom each, start now or "
-          "later), block-time advances incl. periods with zero active liquidity, incentive collects. After EVERY op the spread-reward state (accumulator, total shares, "
+          "accrue -> partial withdraw / add / transfer -> (swap) -> claim on the same position, incentive records (own denom each, start now or "
+          "later), block-time advances incl. periods with zero active liquidity, incentive collects. NON-DEFAULT UPTIMES: per history a random non-empty subset of the six supported "
+          "uptimes (1ns, 1m, 1h, 1d, 1w, 2w) is authorised (AuthorizedUptimes; one history in eight keeps the 1ns default), records are created on the authorised ones (and refused on the "
+          "others), record lifetimes comparable with the uptime, block-time advances that put a position 1 ns below / exactly at / 1 ns above / above / far above / below an uptime, directed "
+          "uptime sequences (new in-range position -> record(s) on the uptime -> time while young -> age-relative advance -> transfer (-> time) -> claim / partial / full withdrawal / add by the "
+          "new owner | partial withdrawal -> claim | full withdrawal | add -> claim by the successor | collect on both sides of the uptime); oracles from the engine's own log of join times, "
+          "records and block times: (a) incentives:transfer-changed-claimable:<uptime>:age-<class> / transfer-changed-join-time / join-time-differs-from-log:<op> (a transfer keeps what is "
+          "collectable and forfeitable per denom, and the join time; add-to-position = full withdrawal + NEW position joining at the time of the add), (b) per op and denom, on branches synced to the "
+          "block time: paid out + claimable + forfeitable (query) - emitted (keeper records) must not fall by more than the rounding dust (one unit per live position, one liquidity unit per "
+          "division by the liquidity): incentives:forfeit-not-redeposited:<op>:<uptime> when the position acted upon was younger than the denom's uptime, else incentives:attributable-lost:<op>:<uptime> "
+          "(forfeits of partial AND full withdrawals and of add-to-position reach the accumulators, or the withdrawer when no liquidity stays active; MsgCollectIncentives drops them: F80), "
+          "(c) incentives:uptime-gate:young-position-collects / old-position-forfeits:<uptime>:age-<class> on every claimable query and claim; counters claim.* / uptime-gate.* / transfer.entitlement-checked* / "
+          "conservation.* / time.age-target* per uptime and age class. After EVERY op the spread-reward state (accumulator, total shares, "
           "growth-outside of every tick, every position record incl. unclaimed, GetClaimableSpreadRewards of every position, fee balances) and the uptime-incentive state (six "
           "accumulators, tick uptime trackers, incentive records' remaining, every position's six uptime records, GetClaimableIncentives collected/forfeited, incentive balances, "
           "LastLiquidityUpdate) are compared with the Lean model (`clp fdump`, `clp idump`); incentive ops are model ops (`clp incentive/advance/sync/icollect`); oracles after every op: spread no-loss (balance - claimable <= dust), incentives (paid+claimable <= in-range time x rate x share, remaining, unmet uptime), "
@@ -721,7 +732,7 @@ PROPS = {
   "engines": [{"name": "cl", "kind": "app", "n": {"quick": 2000, "thorough": 30000}, "shards": {"quick": 4, "thorough": 16}, "env": NO_EXPORT_IMPORT},
               {"name": "clmath", "kind": "pure", "n": {"quick": 20000, "thorough": 300000}, "shards": {"quick": 2, "thorough": 16}}],
   "rule": "cl: histories on one concentrated pool through the real keeper by three accounts (create/add/partial+full withdraw/swaps of both kinds and directions from 1 unit to "
-          "draining/collects/incentive creation/time advances/transfers); the solvency oracle (everybody claims and withdraws everything on a discarded branch; claimable sums <= "
+          "draining/collects/incentive creation on a random subset of the six uptimes authorised per history/time advances incl. age-relative ones/transfers); the solvency oracle (everybody claims and withdraws everything on a discarded branch; claimable sums <= "
           "balances) runs every few ops, after every directed sequence (landing exactly on a tick, records running dry, draining to the price limit) and at the end of every history; the "
           "incentive address must cover claimable + forfeited + the records' remaining amounts with zero tolerance after every op (incl. records that run dry between two accumulator "
           "updates, liquidity 1 .. >= 1e24, both sides of the incentive scaling migration); distinct = distinct op lines",
